@@ -16,7 +16,7 @@ Record memfile := mkMemFile {
   f_modified : option time;
   f_accessed : option time }.
 
-Definition memfs := gmap path memfile.
+Notation memfs := (gmap path memfile) (only parsing).
 
 (** [MemoryFsImpl::new]: only the root directory *)
 Definition mem_new : memfs :=
